@@ -219,8 +219,12 @@ def run_input(prop, rp):
 
 
 SEARCH = [
-    (r'parser::parse_language_identifier_from_iter', ['search', 'lid'], 'lid'),
-    (r'unic_locale_impl::|locale', ['search', 'locale'], 'locale'),
+    # failed Verus obligation (name pattern) -> bounded searches on the real library, tried in order
+    (r'parser::parse_language_identifier|LanguageIdentifier::(from_bytes|try_from_iter)|unic_langid_impl::canonicalize', ['lid', 'locale', 'rt']),
+    (r'from_parts|into_parts', ['fromparts', 'rt']),
+    (r'::fmt$|canonicalize|lemma_', ['rt', 'mut', 'inv']),
+    (r'ExtensionList::(set_|remove_|clear_|add_|has_|is_empty|tlang)|set_variants|clear_variants|has_variant', ['mut']),
+    (r'unic_locale_impl::|locale', ['locale', 'rt']),
 ]
 
 
@@ -244,13 +248,15 @@ def search_input(prop, ob, seed=0):
     import re
     if not build():
         return None
-    for pat, args, kind in SEARCH:
+    for pat, kinds in SEARCH:
         if re.search(pat, ob['name']):
-            r = common.run([VW] + args + [str(seed)], timeout=300)
-            out = (r['out'] or '').strip()
-            if out.startswith('FOUND '):
-                _, hx, desc = out.split(' ', 2)
-                return {'kind': 'vw', 'args': [kind, hx], 'hex': hx, 'ascii': bytes.fromhex(hx).decode('latin1'), 'found_by': ' '.join(args), 'desc': desc}
+            for kind in kinds:
+                try:
+                    inp = search_kind(kind, seed)
+                except Exception:
+                    inp = None
+                if inp:
+                    return inp
             return None
     return None
 
